@@ -10,7 +10,7 @@ PROPS["C13"] = dict(
          "overlapping ranges; <= 2^20 elements; DSP-side walks stay inside the 0x20000-word data area; double-word mode with "
          "size0 == 0xFFFF is excluded (known defect D8: never terminates). External sides outside the statement (8-bit or "
          "mismatching unit, unaligned address, burst with non-contiguous walk / partial last burst / ext>ext) are executed "
-         "but only 'nothing else changed' and the interrupt are checked. distinct_nontrivial = distinct (spaces, mode, unit, "
+         "but only 'nothing else changed' and the interrupt are checked. Completions are acknowledged only some of the time (a completion must raise its interrupt also while bit 15 is still pending); one external transfer in six is first attempted with callbacks that throw and then restarted on the same channel. distinct_nontrivial = distinct (spaces, mode, unit, "
          "burst, which dimensions > 1, which sizes are 0, overlap, DMA channel) keys of fully value-checked transfers",
     floors={Q: {"transfers": 10000, "irq_exactly_once": 10000, "ext_checked_transfers": 2000, "burst_checked_transfers": 300,
                 "ext_log_entries_compared": 50000, "overlapping_transfers": 500, "three_dimensional_transfers": 1500,
